@@ -28,14 +28,17 @@ impl FileWriter {
         let mut start_position = 0;
     
         for (file, source_path) in item.files.iter().zip(&result.source) {
+            // Every segment occupies its own range of the matched bytes, whether or not it is written below.
+            let end_position = start_position + file.read_length as usize;
+            let segment_start_position = start_position;
+            start_position = end_position;
+
             if file.metadata.is_padding_file { continue; }
     
             let file_length = file.metadata.file_length;
             let file_export = &file.metadata.full_target;
     
             if source_path.is_some() && file_export.eq(source_path.as_ref().unwrap().as_ref()) { continue; }
-
-            let end_position = start_position + file.read_length as usize;
     
             let _file_write_guard = self.locks[&file.metadata.id]
                 .lock()
@@ -51,11 +54,9 @@ impl FileWriter {
             
             handle.set_len(file_length)?;
             handle.seek(SeekFrom::Start(file.read_start_position))?;
-            handle.write_all(&result.bytes[start_position..end_position])?;
+            handle.write_all(&result.bytes[segment_start_position..end_position])?;
 
             drop(_file_write_guard);
-
-            start_position = end_position;
         }
     
         Ok(())
